@@ -58,7 +58,7 @@ def describe(tier):
             "every node; json_to_tree(tree_to_json(t)) == t with correct parent links; for every tree with <= 6 nodes EVERY single-field mutation of EVERY node "
             "(type, value, obfuscation, start, end, child added/removed) and every re-nesting that keeps the pre-order sequence (children promoted to siblings, sibling nested under its predecessor) makes the trees unequal. CLI: main() driven in-process for ALL combinations of "
             "{file argument, stdin} x {default, --json, --replace} x {shipped keywords, --keywords fixture directory, --keywords non-directory} x 12 inputs, plus real "
-            "`python -m multidecoder` subprocesses for each mode. Oracle: --json == tree_to_json(Multidecoder(same registry).scan(bytes)); default = one line per "
+            "`python -m multidecoder` subprocesses for each mode with the bytes supplied as regular file, symbolic link, relative path, path with blanks, named pipe, /dev/stdin, /proc/self/fd/0 and plain standard input. Oracle: --json == tree_to_json(Multidecoder(same registry).scan(bytes)); default = one line per "
             "node in pre-order, label part = ancestor type/>obfuscation chain, value part decodes back to the node value; --replace == flatten() when no "
             "substituted results overlap. states = distinct trees / CLI configurations, transitions = nodes compared, traces = round trips / CLI runs compared."
         ),
@@ -318,13 +318,49 @@ def run_subprocess_unit(rec, mode):
             path = os.path.join(tmp, "in.bin")
             with open(path, "wb") as f:
                 f.write(data)
-            for src in ("file", "stdin"):
+            # the FILE argument names bytes, whatever kind of file system object it is: regular file, symbolic link, relative path, path with
+            # blanks, named pipe, /dev/stdin, /proc/self/fd/0
+            for src in ("file", "stdin", "symlink", "relative", "blank-in-name", "fifo", "/dev/stdin", "/proc/self/fd/0"):
                 argv = [sys.executable, "-m", "multidecoder"] + ([] if mode == "default" else [mode]) + ["--keywords", families.FIXTURE_KW]
                 w = {"kind": "subprocess", "mode": mode, "src": src, "input": i}
                 rec.count("evaluations")
                 rec.mark("states", ("sub", mode, src, i), True)
                 if src == "file":
                     r = subprocess.run(argv + [path], capture_output=True, env=env, timeout=120)
+                elif src == "symlink":
+                    link = os.path.join(tmp, "link.bin")
+                    if not os.path.islink(link):
+                        os.symlink(path, link)
+                    r = subprocess.run(argv + [link], capture_output=True, env=env, timeout=120)
+                elif src == "relative":
+                    r = subprocess.run(argv + ["in.bin"], capture_output=True, env=env, timeout=120, cwd=tmp)
+                elif src == "blank-in-name":
+                    p2 = os.path.join(tmp, "in put (1).bin")
+                    shutil.copyfile(path, p2)
+                    r = subprocess.run(argv + [p2], capture_output=True, env=env, timeout=120)
+                elif src == "fifo":
+                    import threading
+
+                    fifo = os.path.join(tmp, f"pipe{i}")
+                    if not os.path.exists(fifo):
+                        os.mkfifo(fifo)
+
+                    def feed(fifo=fifo, data=data):
+                        fd = os.open(fifo, os.O_WRONLY)  # returns once a reader has opened the pipe
+                        try:
+                            os.write(fd, data)
+                        finally:
+                            os.close(fd)
+
+                    t = threading.Thread(target=feed, daemon=True)
+                    t.start()
+                    r = subprocess.run(argv + [fifo], capture_output=True, env=env, timeout=120)
+                    if t.is_alive():  # the command never opened the pipe: release the writer
+                        rfd = os.open(fifo, os.O_RDONLY | os.O_NONBLOCK)
+                        t.join(5)
+                        os.close(rfd)
+                elif src in ("/dev/stdin", "/proc/self/fd/0"):
+                    r = subprocess.run(argv + [src], input=data, capture_output=True, env=env, timeout=120)
                 else:
                     r = subprocess.run(argv, input=data, capture_output=True, env=env, timeout=120)
                 if r.returncode != 0:
